@@ -9,6 +9,8 @@
 namespace yaclib_std {
 
 inline void atomic_thread_fence(std::memory_order /*order*/) noexcept {
+  // the order is not available here: reported as the strongest one (the monitor may only over-approximate ordering)
+  YACLIB_VERIF_SYNC(4, nullptr, std::memory_order_seq_cst);
 }
 
 inline void atomic_signal_fence(std::memory_order /*order*/) noexcept {
